@@ -34,8 +34,13 @@ CONNECT_RULE = ("random scripts of 1-8 attempts {transport error, cancellation i
                 "body kinds none / NoBody / body without GetBody / with GetBody / GetBody failing after k calls; OnRetry set or not; an initial Last-Event-ID header "
                 "sometimes present; Backoff: microsecond intervals, Jitter -1, Multiplier 1 / 1.5 / 2, MaxInterval unset / = initial / 2x, MaxRetries -1 / 0 / 1 / 2 / 3 / 5, "
                 "MaxElapsedTime unset / 1 ns / 1 h; server retry values >= 0.9 s lead to cancellation inside OnRetry; plus a sweep: endings (EOF / error / "
-                "cancellation) after every byte position of six short streams; corpus: D3 / D3b / D6 witnesses and C10 / C12 scenarios. Non-trivial = distinct scripts "
-                "(every one runs Connect on a real Connection).")
+                "cancellation / a read error that wraps io.EOF) after every byte position of six short streams; corpus: D3 / D3b / D6 witnesses and C10 / C12 scenarios. "
+                "Every injected error (transport, validator verdict, reader, GetBody) is a value of a random character: plain, Temporary() true, Timeout() true, wrapping io.EOF / "
+                "io.ErrUnexpectedEOF / os.ErrDeadlineExceeded, *net.OpError around a wrapped io.EOF - projected by identity (errors.As on the harness's own type first), the model takes the "
+                "index as opaque. The Client has produced 0-2 other Connections before the one under test (NewConnection normalises the Client in place). A few scripts (12 quick / 100 thorough) "
+                "have slow attempts (RoundTrip and/or the end of the body sleep 1-3.5 ms) and waits of 1-16 ms that are really slept. One-sided timing observation on every script: for each "
+                "OnRetry call that is followed by a request, the monotonic time from the end of the call to the start of the RoundTrip is at least the duration handed to OnRetry (a timer never "
+                "fires early: cannot fail on timing); C12's oracle demands it. Non-trivial = distinct scripts (every one runs Connect on a real Connection).")
 
 PROPS["C10"] = {
     "families": ["connect_c10"],
@@ -68,7 +73,8 @@ PROPS["C11"] = {
                    "interpreter in Read mode and checked on the real sse.Read over a scripted reader (family read_c11)."),
     "level_note": CLIENT_NOTE + CONNECT_NOTE,
     "rule": CONNECT_RULE + " Family read_c11: sse.Read over the same stream grammar with clean / erroneous endings, all chunkings, the end reported with or after the last "
-            "bytes, plus endings after every byte position of seven short streams; corpus: D3 / D3b witnesses.",
+            "bytes, plus endings after every byte position of seven short streams; read errors of every character (see above: also values that wrap io.EOF / io.ErrUnexpectedEOF, "
+            "projected by identity); corpus: D3 / D3b witnesses.",
     "assumptions": ["events larger than the scanner buffer (bufio.ErrTooLong) are outside the streams generated here (C20)",
                     "the context is cancelled only at the instants a script can name: inside RoundTrip, inside Read, inside OnRetry before a wait >= 0.9 s"],
 }
@@ -86,7 +92,8 @@ PROPS["C12"] = {
                    "interval, numRetries and the number of RNG draws EXACTLY with the extracted model, and the observed waits are checked by an "
                    "oracle written from the property text. Integration: on the model of Connect it is proved that the controller sees exactly the history "
                    "{validated response -> reset, retry field -> reset(value), every attempt end -> next()} and that OnRetry is called once per granted retry with the wait "
-                   "returned by next(); the real Connect (Jitter -1, microsecond intervals) is compared with it on every run: OnRetry durations, attempt counts, return. "
+                   "returned by next(); the real Connect (Jitter -1, microsecond intervals) is compared with it on every run: OnRetry durations, attempt counts, return, "
+                   "and (one-sided, on the monotonic clock) that no attempt starts before the wait handed to OnRetry has passed since that call. "
                    "Validated by correspondence only: IEEE-754 behaviour (dyadic factors only), int64 range, the wall clock inside a real Connect."),
     "level_note": CLIENT_NOTE,
     "rule": ("class A: random configurations over {initial <=0, 1 ns .. 1 s} x Multiplier {1, 9/8, 5/4, 3/2, 7/4, 2, 3, 4, <1 (default)} x Jitter {-1, 1/8 .. 127/128, "
